@@ -40,8 +40,26 @@ pub struct Case {
     pub rng_seed: u64,
 }
 
+/// Data-centre names: operators choose them. Lower-case ASCII, mixed case, non-ASCII with a space, and the name a node
+/// gets when none is configured.
+pub fn dc_name(style: usize, i: usize) -> String {
+    match style % 4 {
+        0 => format!("dc-{i}"),
+        1 => format!("EU-West-{i}"),
+        2 => format!("Z\u{fc}rich S\u{dc}D {i}"),
+        _ => {
+            if i == 0 {
+                datacake_node::DEFAULT_DATA_CENTER.to_string()
+            } else {
+                format!("Dc{i}")
+            }
+        },
+    }
+}
+
 pub fn gen_layout(src: &mut Src, max_dcs: usize, max_per_dc: usize) -> (Layout, SocketAddr, String) {
     let n_dcs = 1 + src.below(max_dcs);
+    let style = src.below(4);
     let mut layout = Layout::new();
     for dc in 0..n_dcs {
         let n = 1 + src.below(max_per_dc);
@@ -49,10 +67,10 @@ pub fn gen_layout(src: &mut Src, max_dcs: usize, max_per_dc: usize) -> (Layout, 
         // membership maps are ordered by node id, addresses need not be: permute
         let p = src.permutation(n);
         nodes = p.into_iter().map(|i| nodes[i]).collect();
-        layout.insert(format!("dc-{dc}"), nodes);
+        layout.insert(dc_name(style, dc), nodes);
     }
     let ldc = src.below(n_dcs);
-    let name = format!("dc-{ldc}");
+    let name = dc_name(style, ldc);
     let members = &layout[&name];
     let local = members[src.below(members.len())];
     (layout, local, name)
@@ -348,7 +366,7 @@ impl Prop for NodePart {
     }
 
     fn rule(&self) -> &'static str {
-        "one real DatacakeNode (id 1, dc-0): 2-15 steps, each either a membership snapshot over ids 2-9 in 3 data \
+        "one real DatacakeNode (id 1, data-centre names lower-case / mixed case / non-ASCII with a space / the unconfigured default): 2-15 steps, each either a membership snapshot over ids 2-9 in 3 data \
          centres (nodes join, a node leaves, a whole data centre leaves, everybody leaves, a node is replaced by another \
          one or moves to another data centre in ONE update so the member count stays the same) published via hook \
          H-members, or DatacakeNode::select_nodes with a generated level (selector actor, cursors and result cache \
@@ -365,10 +383,15 @@ async fn run_node(case: &NodeCase) -> Outcome {
     // address is the documented way to deploy): "the local node" is the advertised address, as in the snapshots
     let listen: SocketAddr = if case.seed & 1 == 1 { ([10, 2, 9, 1], 7000).into() } else { me };
     let cfg = ConnectionConfig::new(listen, me, Vec::<String>::new());
-    let node = DatacakeNodeBuilder::<DCAwareSelector>::new(1, cfg).with_data_center("dc-0").connect().await.expect("connect");
+    let style = ((case.seed >> 1) % 4) as usize;
+    let dc0 = dc_name(style, 0);
+    let builder = DatacakeNodeBuilder::<DCAwareSelector>::new(1, cfg);
+    // style 3: the local data centre is the default one, configured by not configuring it
+    let builder = if style == 3 { builder } else { builder.with_data_center(dc0.clone()) };
+    let node = builder.connect().await.expect("connect");
     tokio::time::sleep(std::time::Duration::from_millis(10)).await;
     let mut layout: Layout = Layout::new();
-    layout.insert("dc-0".into(), vec![me]);
+    layout.insert(dc0.clone(), vec![me]);
     let mut removed_something = false;
     let mut after_removal = false;
     let mut prev: BTreeMap<u8, usize> = BTreeMap::new();
@@ -376,14 +399,14 @@ async fn run_node(case: &NodeCase) -> Outcome {
         match step {
             Step::Members(m) => {
                 let mut members: Vec<ClusterMember> =
-                    m.iter().map(|(id, dc)| ClusterMember::new(*id, node_addr(*id), format!("dc-{dc}"))).collect();
-                members.push(ClusterMember::new(1, me, "dc-0".to_string()));
+                    m.iter().map(|(id, dc)| ClusterMember::new(*id, node_addr(*id), dc_name(style, *dc))).collect();
+                members.push(ClusterMember::new(1, me, dc0.clone()));
                 node.verif_set_members(members);
                 tokio::time::sleep(std::time::Duration::from_millis(1)).await;
                 layout = Layout::new();
-                layout.entry("dc-0".into()).or_default().push(me);
+                layout.entry(dc0.clone()).or_default().push(me);
                 for (id, dc) in m {
-                    layout.entry(format!("dc-{dc}")).or_default().push(node_addr(*id));
+                    layout.entry(dc_name(style, *dc)).or_default().push(node_addr(*id));
                 }
                 if prev.keys().any(|k| !m.contains_key(k)) {
                     removed_something = true;
@@ -392,7 +415,7 @@ async fn run_node(case: &NodeCase) -> Outcome {
             },
             Step::Select(l) => {
                 let res = node.select_nodes(LEVELS[*l]).await;
-                judge(LEVELS[*l], &layout, me, "dc-0", &res, &format!("step {i}"))?;
+                judge(LEVELS[*l], &layout, me, &dc0, &res, &format!("step {i}"))?;
                 if removed_something {
                     after_removal = true;
                 }
